@@ -12,116 +12,14 @@ import (
 	"path/filepath"
 	"strconv"
 	"strings"
+	"time"
 
 	"github.com/transparency-dev/witness/internal/feeder/bastion"
 	"github.com/transparency-dev/witness/internal/verif/kit/ev"
+	"github.com/transparency-dev/witness/internal/verif/kit/refbody"
 	"github.com/transparency-dev/witness/internal/verif/kit/wit"
 	"github.com/transparency-dev/witness/internal/witness"
 )
-
-type verdict int
-
-const (
-	accept verdict = iota
-	refuse
-	open // the format texts leave it open; only the weak oracle applies
-)
-
-// refParse is the reference reader of the add-checkpoint body, written from the
-// tlog-witness text: "old N" line, base64 proof lines, blank line, checkpoint.
-func refParse(b []byte) (verdict, uint64, [][]byte, []byte) {
-	i := bytes.IndexByte(b, '\n')
-	if i < 0 {
-		return refuse, 0, nil, nil // ends before the blank separator
-	}
-	line := string(b[:i])
-	rest := b[i+1:]
-	v := accept
-	if len(line) > 4000 {
-		v = open
-	}
-	var size uint64
-	if !strings.HasPrefix(line, "old ") {
-		if strings.HasPrefix(line, "old\t") {
-			v = open
-		} else {
-			return refuse, 0, nil, nil
-		}
-	}
-	num := ""
-	if len(line) >= 4 {
-		num = line[4:]
-	}
-	if strings.HasSuffix(num, "\r") || strings.HasPrefix(num, " ") || strings.HasPrefix(num, "\t") {
-		v = open
-		num = strings.TrimLeft(strings.TrimSuffix(num, "\r"), " \t")
-	}
-	if num == "" {
-		return refuse, 0, nil, nil
-	}
-	for _, c := range num {
-		if c < '0' || c > '9' {
-			return refuse, 0, nil, nil
-		}
-	}
-	if len(num) > 1 && num[0] == '0' {
-		v = open
-	}
-	n, err := strconv.ParseUint(num, 10, 64)
-	if err != nil {
-		if strings.TrimLeft(num, "0") != num {
-			return open, 0, nil, nil
-		}
-		return refuse, 0, nil, nil // overflow
-	}
-	size = n
-	var hashes [][]byte
-	for {
-		j := bytes.IndexByte(rest, '\n')
-		if j < 0 {
-			return refuse, 0, nil, nil // no blank separator before the end
-		}
-		l := string(rest[:j])
-		rest = rest[j+1:]
-		if l == "" {
-			break
-		}
-		if l == "\r" {
-			return open, 0, nil, nil
-		}
-		if len(l) > 4000 {
-			return open, 0, nil, nil
-		}
-		ok := len(l)%4 == 0
-		pad := 0
-		for k, c := range l {
-			switch {
-			case c >= 'A' && c <= 'Z', c >= 'a' && c <= 'z', c >= '0' && c <= '9', c == '+', c == '/':
-				if pad > 0 {
-					ok = false
-				}
-			case c == '=':
-				pad++
-				if k < len(l)-2 {
-					ok = false
-				}
-			case c == '\r':
-				return open, 0, nil, nil
-			default:
-				ok = false
-			}
-		}
-		if !ok || pad > 2 {
-			return refuse, 0, nil, nil
-		}
-		h, err := base64.StdEncoding.DecodeString(l)
-		if err != nil {
-			return refuse, 0, nil, nil
-		}
-		hashes = append(hashes, h)
-	}
-	return v, size, hashes, rest
-}
 
 func write(old string, hashes [][]byte, cp []byte) []byte {
 	var b bytes.Buffer
@@ -309,6 +207,10 @@ func main() {
 	})
 
 	ownWriter(run)
+	if run.Thorough() {
+		run.Fuzz("FuzzParseBody", 2000000, 30*time.Minute)
+		run.Fuzz("FuzzProofUnmarshal", 500000, 15*time.Minute)
+	}
 
 	// differential sweep
 	run.Units("diff", run.Pick(64, 1600), 0, func(unit int64, r *rand.Rand) {
@@ -321,17 +223,17 @@ func main() {
 			for k := 1 + r.IntN(3); k > 0; k-- {
 				body = mutate(r, body)
 			}
-			rv, rs, rh, rc := refParse(body)
+			rv, rs, rh, rc := refbody.Parse(body)
 			gs, gh, gc, err := bastion.VerifParseBody(bytes.NewReader(body))
 			run.Count("evaluations")
 			detail := map[string]any{"body_b64": base64.StdEncoding.EncodeToString(body), "body": string(body[:min(len(body), 300)])}
 			switch rv {
-			case accept:
+			case refbody.Accept:
 				run.Count("diff_definite")
 				if err != nil || gs != rs || !eqHashes(gh, rh) || !bytes.Equal(gc, rc) {
 					run.Violate("diff_wellformed_misparsed", fmt.Sprintf("reference reads old=%d, %d hashes, %d bytes; parser: err=%v old=%d, %d hashes, %d bytes", rs, len(rh), len(rc), err, gs, len(gh), len(gc)), unit, detail)
 				}
-			case refuse:
+			case refbody.Refuse:
 				run.Count("diff_definite")
 				if err == nil {
 					first := string(body[:min(len(body), 16)])
@@ -346,7 +248,7 @@ func main() {
 					}
 					run.Violate("diff_malformed_accepted;"+cls, fmt.Sprintf("reference refuses, parser accepted old=%d, %d hashes: %q", gs, len(gh), string(body[:min(len(body), 50)])), unit, detail)
 				}
-			case open:
+			case refbody.Open:
 				run.Count("diff_open")
 			}
 			run.Distinct("nontrivial", fmt.Sprintf("diff/%d/%v/%d", rv, err == nil, len(rh)))
